@@ -51,8 +51,9 @@ class LazyImport:
         self.level = level; self.module = module; self.name = name
 
 
-import decimal as _decimal, math as _math, fractions as _fractions, datetime as _datetime
+import decimal as _decimal, math as _math, fractions as _fractions, datetime as _datetime, collections as _collections
 PURE_EXTERNAL = {
+    ('collections', 'namedtuple'): _collections.namedtuple,
     ('datetime', 'date'): _datetime.date, ('datetime', 'timedelta'): _datetime.timedelta,
     ('decimal', 'Decimal'): _decimal.Decimal,
     ('fractions', 'Fraction'): _fractions.Fraction,
@@ -131,7 +132,8 @@ class Folder:
         if isinstance(st, ast.FunctionDef):
             env[st.name] = FuncConst(st, env); return
         if isinstance(st, ast.ClassDef):
-            env[st.name] = ('class', st.name); return
+            rec = self.record_class(st, env)
+            env[st.name] = rec if rec is not None else ('class', st.name); return
         if isinstance(st, ast.Delete):
             for t in st.targets:
                 if isinstance(t, ast.Name): env.pop(t.id, None)
@@ -275,8 +277,46 @@ class Folder:
     def e_SetComp(self, e, env): return set(self.e_ListComp(e, env))
     def e_DictComp(self, e, env):
         out = {}; self.comp(e.generators, env, lambda en: out.__setitem__(self.expr(e.key, en), self.expr(e.value, en))); return out
+    def record_class(self, st, env):
+        """class X(NamedTuple) with annotated fields (and plain methods): a stdlib namedtuple type - pure data, no repo code runs"""
+        bases = [ast.unparse(b) for b in st.bases]
+        if not any(b.split('.')[-1] == 'NamedTuple' for b in bases) or st.keywords or st.decorator_list:
+            return None
+        fields, defaults, methods = [], [], {}
+        for x in st.body:
+            if isinstance(x, ast.AnnAssign) and isinstance(x.target, ast.Name):
+                fields.append(x.target.id)
+                if x.value is not None:
+                    defaults.append(self.expr(x.value, env))
+                elif defaults:
+                    return None
+            elif isinstance(x, ast.FunctionDef) and not x.decorator_list:
+                methods[x.name] = FuncConst(x, env)
+            elif isinstance(x, ast.Expr) and isinstance(x.value, ast.Constant):
+                continue
+            elif isinstance(x, ast.Pass):
+                continue
+            else:
+                return None
+        if not fields:
+            return None
+        t = _collections.namedtuple(st.name, fields, defaults=defaults or None)
+        if not hasattr(self, 'rec_methods'):
+            self.rec_methods = {}
+        self.rec_methods[t] = methods
+        return t
+
     def e_Attribute(self, e, env):
         v = self.expr(e.value, env)
+        if isinstance(v, tuple) and hasattr(type(v), '_fields'):
+            if e.attr in type(v)._fields: return getattr(v, e.attr)
+            ms = getattr(self, 'rec_methods', {}).get(type(v), {})
+            if e.attr in ms: return ('recmeth', v, ms[e.attr])
+            if e.attr in ('_replace', '_asdict'): return ('recbound', v, e.attr)
+            if e.attr == '_fields': return type(v)._fields
+            raise Unfoldable('attribute %s of a record' % e.attr)
+        if isinstance(v, type) and hasattr(v, '_fields') and e.attr in ('_fields', '_make'):
+            return v._fields if e.attr == '_fields' else v._make
         if isinstance(v, _datetime.date) and e.attr in ('year', 'month', 'day'): return getattr(v, e.attr)
         if isinstance(v, ObjConst):
             if e.attr in v.attrs: return v.attrs[e.attr]
@@ -295,6 +335,11 @@ class Folder:
             if k.arg is None: kw.update(self.expr(k.value, env))
             else: kw[k.arg] = self.expr(k.value, env)
         if isinstance(f, FuncConst): return self.call(f, args, kw)
+        if isinstance(f, tuple) and f[0] == 'recmeth': return self.call(f[2], [f[1]] + args, kw)
+        if isinstance(f, tuple) and f[0] == 'recbound': return getattr(f[1], f[2])(*args, **kw)
+        if isinstance(f, type) and issubclass(f, tuple) and hasattr(f, '_fields'): return f(*args, **kw)
+        if getattr(f, '__self__', None) is not None and isinstance(f.__self__, type) and hasattr(f.__self__, '_fields') \
+                and f.__name__ == '_make': return f(*args)
         if isinstance(f, tuple) and f[0] == 'modattr':
             if f[1:] == ('re', 'compile'): return RegexConst(*args, **kw)
             if f[1:] == ('re', 'sub'):
